@@ -1352,7 +1352,6 @@ fn graph_case(case_seed: u64, r: &mut Report, exe: &std::path::Path) {
     }
 
     cx.r.count("time_us_child", lap_t.elapsed().as_micros() as u64);
-    lap_t = Instant::now();
     let sigs_empty = cx.sigs.is_empty();
     drop(cx);
     r.count("graphs", 1);
@@ -1524,7 +1523,7 @@ fn main() {
         return;
     }
 
-    let n = args.by_tier(6_000u64, 400_000u64);
+    let n = args.by_tier(8_000u64, 400_000u64);
     let rep = par_cases(args.threads, args.seed ^ 0xC18, n, args.budget(45, 600), |_i, s, r| graph_case(s, r, &exe));
     total.merge(rep);
 
